@@ -33,13 +33,53 @@ def digests(prop, n, base, with_replay=False):
     return out
 
 
+def oracle_sanity():
+    """the reference models on hand-computed cases (so that a vacuous oracle cannot hide)"""
+    import refmap
+    import schemas
+    import tokens as tk
+    import validity
+    from boot import pm
+
+    s = schemas.get("basic")
+    doc = s.node("doc", None, [s.node("paragraph", None, [s.text("a\U0001F600")]), s.node("horizontal_rule")])
+    t = tk.tokens(doc, "structural")
+    assert t == [("o", "paragraph"), ("t", 97), ("t", 0xD83D), ("t", 0xDE00), ("c",), ("l", "horizontal_rule")], t
+    assert len(t) == doc.content.size == 6
+    ins = refmap.RMap([(2, 0, 4)])
+    assert (ins.map(2, 1), ins.map(2, -1), ins.map(3, 1), ins.map(1, 1)) == (6, 2, 7, 1)
+    dele = refmap.RMap([(2, 4, 0)])
+    assert [dele.map(p, 1) for p in range(8)] == [0, 1, 2, 2, 2, 2, 2, 3]
+    f = dele.detail(4, 1)[1]
+    assert f["deleted"] and f["deleted_across"] and f["deleted_before"] and f["deleted_after"]
+    assert not dele.detail(2, -1)[1]["deleted"] and dele.detail(2, 1)[1]["deleted"]
+    assert dele.inverted().t == [(2, 0, 4)]
+    two = refmap.RMap([(1, 1, 2), (5, 2, 0)])
+    assert two.inverted().t == [(1, 2, 1), (6, 0, 2)] and two.ranges_old_new() == [(1, 2, 1, 3), (5, 7, 6, 6)]
+    rt = refmap.RMapping([dele, dele.inverted()], [(0, 1)])
+    assert [rt.map(p, 1) for p in range(8)] == list(range(8)), [rt.map(p, 1) for p in range(8)]
+    plain = refmap.RMapping([dele, dele.inverted()])
+    assert plain.map(4, 1) == 6 and plain.map(4, -1) == 2
+    bad = s.node_type("code_block").create(None, [s.text("x", [s.mark("em")])])
+    assert validity.problems(s.node_type("doc").create(None, [bad]))
+    unsorted_ = s.text("x", None)
+    unsorted_.marks = [s.mark("strong"), s.mark("em")]
+    assert validity.problems(s.node_type("doc").create(None, [s.node_type("paragraph").create(None, [unsorted_])]))
+    assert not validity.problems(doc)
+    print("oracle sanity OK")
+
+
 def main():
+    if len(sys.argv) > 1 and sys.argv[1] == "oracles":
+        oracle_sanity()
+        return 0
     if len(sys.argv) > 1 and sys.argv[1] == "digests":
         prop, n, base = sys.argv[2], int(sys.argv[3]), int(sys.argv[4])
         for seed, d in digests(prop, n, base):
             print(seed, d)
         return 0
     n = int(os.environ.get("SELFTEST_N", "40"))
+    oracle_sanity()
     bad = 0
     for prop in PROPS:
         a = digests(prop, n, 7, with_replay=True)
@@ -63,7 +103,15 @@ def main():
                 if not (l1 == l2 == l3):
                     print("  ", l1, "|", l2, "|", l3)
                     break
-        print("selftest %s: %d seeds x (2 in-process + replay + 2 fresh interpreters) %s" % (
+        # two worker layouts of the parallel batch runner
+        r3, _ = runner.batch(prop, "quick", 7, n, 600, 3)
+        r7, _ = runner.batch(prop, "quick", 7, n, 600, 7)
+        d3 = [(r["seed"], r["digest"]) for r in r3]
+        d7 = [(r["seed"], r["digest"]) for r in r7]
+        if not (d3 == d7 == b):
+            bad += 1
+            print("NONDETERMINISTIC across worker counts", prop)
+        print("selftest %s: %d seeds x (2 in-process + replay + 2 fresh interpreters + 3 and 7 workers) %s" % (
             prop, n, "OK" if not bad else "FAILED"))
     return 1 if bad else 0
 
